@@ -186,7 +186,8 @@ Section Pass1.
     end.
 
   (* InstMgr::Append(): the name 0 stands for "none" and is replaced by the next free one; the manager
-     remembers the greatest name it has held (ids: the names it holds, mx: maxFileId) *)
+     remembers the greatest name it has held (ids: the names it holds, mx: maxFileId).  Names are unbounded here; the
+     code keeps them in an int and stays at INT_MAX once it is reached (no theorem speaks of that corner) *)
   Definition next_id (mx : Z) : Z := if (mx <? 0)%Z then 1%Z else (mx + 1)%Z.
   Definition mgr_append (ids : list Z) (mx : Z) (id : Z) : list Z * Z :=
     let '(stored, mx1) := if (id =? 0)%Z then (next_id mx, next_id mx) else (id, mx) in
